@@ -143,7 +143,7 @@ def standin_visit_tables(tier, seed):
                 rule="one evaluation = one table (row order, identifier type) through Data.from_dataframe -> Dataset -> to_pandas -> "
                      "re-ingestion with every tensor entry compared with the table; non-trivial = accepted tables; all tables distinct",
                 samples=[dict(rows=[["s0", 70.0, 0.25, "nan"], ["s1", 55.0, 0.5, 0.75], ["s0", 61.5, "nan", 0.5]])],
-                violations=violations[:4],
+                violations=violations[:60],
                 bound=dict(space="<= 3 individuals x <= 3 visits x 2 features x {value, missing}; 3 row orders; 3 identifier types",
                            exhaustive=(tier != "quick"), tables=tables))
 
@@ -213,7 +213,7 @@ def standin_malformed(tier, seed):
     return dict(evaluations=evals, distinct_nontrivial=len(distinct),
                 rule="one evaluation = one malformed table that must be refused with LeaspyDataInputError; distinct = malformation kind x position",
                 samples=[dict(kind="duplicate visit after rounding", rows=[["a", 70.0], ["a", 70.0000004]])],
-                violations=violations[:6],
+                violations=violations[:60],
                 bound=dict(space="malformation kinds of the property x 4 row positions + event / joint layouts", exhaustive=True))
 
 
@@ -277,7 +277,7 @@ def standin_direct_api(tier, seed):
             violations.append(dict(key=f"Data.from_individual_values: distinct ages refused or not sorted ({raised})", ages=list(b1)))
     uniq = {v["key"]: v for v in violations}
     return dict(evaluations=evals, distinct_nontrivial=len(distinct), rule="one evaluation = one pair of batches through the real add_observations (or one list through from_individual_values); all pairs distinct",
-                samples=[dict(batches=[list(batches1[5]), list(batches2[3])])], violations=list(uniq.values())[:6],
+                samples=[dict(batches=[list(batches1[5]), list(batches2[3])])], violations=list(uniq.values())[:60],
                 bound=dict(ages=ages, first_batch_len=n1, second_batch_len=2, exhaustive=True))
 
 
